@@ -604,7 +604,11 @@ class LifetimeCtx:
             def wait_w(*a, **k):
                 import threading as _th
 
-                if _th.get_ident() == main_ident and SIM.active and not ctx.crashed:
+                if ctx.crashed and _th.get_ident() == main_ident:
+                    # the simulated kill is being unwound through mdpax's own `finally` blocks
+                    # (a real kill would not run them): the dead process does not wait for anyone
+                    return None
+                if _th.get_ident() == main_ident and SIM.active:
                     ctx.force_writer()
                 return o_wait(*a, **k)
 
